@@ -291,13 +291,28 @@ def enum_syncs(seed):
                 left = sorted(n for n in os.listdir(root) if n != "name")
                 if r2 == "ok" and left:
                     fails.append({"model": dict(model, follow_up=True), "detail": f"after the follow-up sync staging directories are left behind: {left}"})
+                if r == "stopped" and have_old:
+                    # the same interruption followed by a sync that fails (a corrupt archive): the old tree, put back by that sync, must survive it
+                    root3 = os.path.join(scratch, f"t-{stop}")
+                    os.makedirs(root3)
+                    assert one_sync(root3, tars["old"], etag="v1") == "ok"
+                    one_sync(root3, tars["new"], stop_at=stop, etag="v2")
+                    cases += 1
+                    r3 = one_sync(root3, tars["bad2"], etag="v3")
+                    st3 = tree_state(basedir(root3))
+                    if st3 not in ("old", "new"):
+                        fails.append({"model": dict(model, follow_up=True, second_sync="corrupt archive"),
+                                      "detail": f"sync stopped before file operation #{stop}, the next sync got a corrupt archive (returned {r3}): the repository path then holds {st3}, other entries {sorted(n for n in os.listdir(root3) if n != 'name')}"})
+                    r4 = one_sync(root3, tars["new"], etag="v3")
+                    if (r4, tree_state(basedir(root3))) != ("ok", "new"):
+                        fails.append({"model": dict(model, follow_up=True, second_sync="corrupt archive", third_sync=True), "detail": f"sync stopped before file operation #{stop}, then a failed sync, then a good one: returned {r4}, the repository path holds {tree_state(basedir(root3))}"})
                 if r != "stopped":
                     break
                 stop += 1
     finally:
         shutil.rmtree(scratch, ignore_errors=True)
     return {"name": "C47.syncs.bounded_enumeration", "bound": "real _pre_download / _post_download with real gzip tarballs in a scratch directory: good, truncated and corrupt archives over an existing repository, and a good archive with the sync "
-            "stopped before every rename / makedirs / tar invocation (with and without an existing repository), each followed by an inspection of the repository path and a second sync", "cases": cases, "failures": sorted(fails, key=lambda f: bool(f["model"].get("between_the_two_renames")))[:8]}  # unlisted failures first: a listed one never crowds them out
+            "stopped before every rename / makedirs / tar invocation (with and without an existing repository), each followed by an inspection of the repository path and a second sync (a good one; and, over an existing repository, a failing one followed by a good one)", "cases": cases, "failures": sorted(fails, key=lambda f: bool(f["model"].get("between_the_two_renames")))[:8]}  # unlisted failures first: a listed one never crowds them out
 
 
 def tasks():
